@@ -50,6 +50,10 @@ def timing_program(draw, max_routines=6, sends=False, nondyadic=False,
             ph = 0
         return [q, ph]
 
+    def spelling():
+        # r.play(clock, quant) or one of the create-and-play conveniences
+        return draw(st.sampled_from([[], [], [], ['deco'], ['run']]))
+
     def send_op():
         tag[0] += 1
         k = draw(st.integers(0, 5))
@@ -98,7 +102,7 @@ def timing_program(draw, max_routines=6, sends=False, nondyadic=False,
                         draw(st.sampled_from(DELTAS)), k])
                 else:
                     body.append(['play', k, draw(st.sampled_from(refs)),
-                                 quant()])
+                                 quant()] + spelling())
             if tempo_ops and nclocks and draw(st.integers(0, 5)) == 0:
                 # a routine changes a tempo while others sleep on that clock
                 body.append(['etempo' if etempo and draw(st.booleans())
@@ -107,7 +111,8 @@ def timing_program(draw, max_routines=6, sends=False, nondyadic=False,
             if s < steps - 1 or draw(st.booleans()):
                 body.append(['wait', draw(st.sampled_from(DELTAS))])
         for k in kids:
-            body.append(['play', k, draw(st.sampled_from(refs)), quant()])
+            body.append(['play', k, draw(st.sampled_from(refs)), quant()]
+                        + spelling())
         if draw(st.integers(0, 9)) == 0:
             body.append(['yield', 'hang'])
             tag[0] += 1
@@ -117,7 +122,8 @@ def timing_program(draw, max_routines=6, sends=False, nondyadic=False,
     for rt in roots:
         if sends and draw(st.integers(0, 3)) == 0:
             top.append(send_op())
-        top.append(['play', rt, draw(st.sampled_from(refs)), quant()])
+        top.append(['play', rt, draw(st.sampled_from(refs)), quant()]
+                   + spelling())
     if sends and draw(st.booleans()):
         top.append(send_op())
     if hand:
